@@ -1,31 +1,43 @@
 #!/usr/bin/env python3
-"""Re-applies every seeded change under /verif/seeded to /repo (one at a time, reverted afterwards) and re-runs the
-checks that are recorded as catching it.  Updates meta.json ("recheck": {...})."""
-import json, os, subprocess, glob, sys
+"""Re-applies every seeded change under /verif/seeded (each in its own scratch worktree of /repo HEAD, removed
+afterwards; /repo itself is not touched) and re-runs the checks recorded as catching it with VERIF_IMPL_SRC
+pointing at that worktree.  Updates meta.json ("recheck": {...}).  usage: recheck_seeds.py [-j N] [seed ids...]"""
+import json, os, subprocess, glob, sys, concurrent.futures as cf
 def sh(c): return subprocess.run(c, shell=True, stdout=subprocess.PIPE, stderr=subprocess.STDOUT, text=True)
-assert sh("git -C /repo status --porcelain").stdout.strip() == "", "/repo not clean"
+args = sys.argv[1:]
+jobs = 4
+if args[:1] == ["-j"]:
+    jobs = int(args[1]); args = args[2:]
 head = sh("git -C /repo log --format=%h -1").stdout.strip()
-only = sys.argv[1:]
-for d in sorted(glob.glob("/verif/seeded/*")):
+def one(d):
     sid = os.path.basename(d)
-    if only and sid not in only: continue
     meta = json.load(open(d + "/meta.json"))
     checks = [c for c, v in meta.get("detected_by", {}).items() if v.startswith("yes")] or [meta["property"]]
-    r = sh("git -C /repo apply --check %s/patch.diff" % d)
-    if r.returncode != 0:
-        meta["recheck"] = {"repo_head": head, "applies": False, "note": "patch no longer applies to the current /repo HEAD (the code it touched was changed by a later fix: commit)"}
-        print(sid, "DOES NOT APPLY")
-    else:
-        sh("git -C /repo apply %s/patch.diff" % d)
-        res = {}
-        try:
-            demo = sh("cd /tmp && PYTHONPATH=/repo/src PYTHONHASHSEED=0 /venv/bin/python -W ignore %s/demo.py" % d)
+    wt = "/tmp/recheck_%s" % sid
+    sh("git -C /repo worktree remove --force %s" % wt)
+    r = sh("git -C /repo worktree add -q %s HEAD" % wt)
+    assert r.returncode == 0, r.stdout
+    try:
+        r = sh("git -C %s apply %s/patch.diff" % (wt, d))
+        if r.returncode != 0:
+            meta["recheck"] = {"repo_head": head, "applies": False,
+                               "note": "patch no longer applies to the current /repo HEAD (the code it touched was changed by a later fix: commit)"}
+            out = "%s DOES NOT APPLY" % sid
+        else:
+            env = "PYTHONPATH=%s/src PYTHONHASHSEED=0" % wt
+            demo = sh("cd /tmp && %s /venv/bin/python -W ignore %s/demo.py" % (env, d))
+            res = {}
             for c in checks:
-                o = sh("cd /verif && ./check %s --tier quick" % c)
+                o = sh("cd /verif && VERIF_IMPL_SRC=%s/src VERIF_EVIDENCE_DIR=/tmp/recheck_evidence_%s ./check %s --tier quick" % (wt, sid, c))
                 res[c] = "caught" if (o.returncode == 1 and "VIOLATION" in o.stdout) else "NOT CAUGHT (rc %d)" % o.returncode
-        finally:
-            sh("git -C /repo checkout -- .")
-        meta["recheck"] = {"repo_head": head, "applies": True, "demo_rc_with_change": demo.returncode, "checks": res}
-        print(sid, "demo_rc", demo.returncode, res)
+            meta["recheck"] = {"repo_head": head, "applies": True, "demo_rc_with_change": demo.returncode, "checks": res}
+            out = "%s demo_rc %d %s" % (sid, demo.returncode, res)
+    finally:
+        sh("git -C /repo worktree remove --force %s" % wt)
+        sh("rm -rf /tmp/recheck_evidence_%s" % sid)
     json.dump(meta, open(d + "/meta.json", "w"), indent=1)
-assert sh("git -C /repo status --porcelain").stdout.strip() == ""
+    return out
+ds = [d for d in sorted(glob.glob("/verif/seeded/*")) if not args or os.path.basename(d) in args]
+with cf.ThreadPoolExecutor(max_workers=jobs) as ex:
+    for o in ex.map(one, ds):
+        print(o, flush=True)
